@@ -106,5 +106,9 @@ def run(ck, ctx):
             dict(module="sequence", only_rules={"O-accept", "O-raise"}, build_kw=dict(tier=ck.tier))]
     jobs += [dict(module="clauses", only_rules={"O-accept", "O-raise"}, build_kw=dict(group=g, tier=ck.tier)) for g in GROUPS if g != "oracle"]
     run_fragments(ck, ctx, jobs)
+    # ---- E7: the line pre-processing itself never raises (whatever the line)
+    from ..specs.lines import check_no_raise
+    check_no_raise(ck, ctx)
+    ck.floor("O-noraise", 40)
     ck.assumptions += ["PLY calls p_error exactly when an action-table entry is missing and t_error exactly when no lexer rule matches",
                        "exceptions thrown by actions on malformed values (int('abc'), KeyError) are declined (DESIGN 4 C16)"]
